@@ -342,15 +342,18 @@ def accumulated_list(func: Func, name: str) -> Optional[ast.AST]:
                 inits.append(n)
         elif isinstance(n, ast.AugAssign) and isinstance(n.target, ast.Name) and n.target.id == name:
             inits.append(n)
-    if len(inits) != 1 or not isinstance(inits[0], (ast.Assign, ast.AnnAssign)) or not isinstance(inits[0].value, ast.List):
+    if len(inits) != 1 or not isinstance(inits[0], (ast.Assign, ast.AnnAssign)) or \
+            not isinstance(inits[0].value, (ast.List, ast.ListComp)):
         return None
     cs = [c for c in collects(func) if c.kind == 'loop' and c.acc == name]
     other_mut = [n for n in walk_no_nested(func.node) if isinstance(n, ast.Call) and isinstance(n.func, ast.Attribute) and
                  isinstance(n.func.value, ast.Name) and n.func.value.id == name and n.func.attr not in ('append',)
                  and n.func.attr in ('extend', 'insert', 'remove', 'pop', 'clear', 'sort', 'reverse')]
-    if len(cs) != 1 or other_mut:
+    if len(cs) > 1 or other_mut:
         return None
-    c = cs[0]
+    if isinstance(inits[0].value, ast.ListComp) and cs:
+        return None
+    c = cs[0] if cs else None
     # single appends outside every loop contribute one element each
     singles = []
     for n in walk_no_nested(func.node):
@@ -363,6 +366,18 @@ def accumulated_list(func: Func, name: str) -> Optional[ast.AST]:
                 if cfg.conditions(cfg.node_of(n)) != cfg.conditions(cfg.node_of(inits[0])):
                     return None      # conditional extra element: not expressible
                 singles.append(copy.deepcopy(n.value.args[0]))
+    if c is None:
+        # no fill loop: `xs = [..]` or `xs = [E for ..]` followed by unconditional single appends
+        if not singles:
+            return None
+        first = copy.deepcopy(inits[0].value)
+        if isinstance(first, ast.List):
+            out = ast.List(elts=first.elts + singles, ctx=ast.Load())
+        else:
+            out = ast.BinOp(left=first, op=ast.Add(), right=ast.List(elts=singles, ctx=ast.Load()))
+        ast.copy_location(out, inits[0])
+        ast.fix_missing_locations(out)
+        return out
     ifs = []
     for t, p in c.conds:
         ifs.append(copy.deepcopy(t) if p else ast.UnaryOp(op=ast.Not(), operand=copy.deepcopy(t)))
